@@ -18,7 +18,7 @@ class Fold:
         return {k[len(prefix):]: v for k, v in self.env.items() if isinstance(k, str) and k.startswith(prefix)}
 
 
-def fold_parse_cmd(repo, request, state=None, custom=None, hdr_ver=0):
+def fold_parse_cmd(repo, request, state=None, custom=None, hdr_ver=0, model_objects=False):
     """state: attribute values of the transceiver (running, ready, pwr_meas, ...); custom: what the
     transceiver-specific handler answers (None = unhandled)"""
     ci, pc = repo.need_method("ctrl_if_trx", "CTRLInterfaceTRX", "parse_cmd")
@@ -77,6 +77,7 @@ def fold_parse_cmd(repo, request, state=None, custom=None, hdr_ver=0):
         calls.append(("measure", tuple(a), ()))
         return -77
     e = Ev(repo, ci.mod, env=env, self_cls=ci)
+    e.model_objects = model_objects
 
     def power(a, kw):
         # the transceiver's power event handler: recorded, and modelled by its one effect the command handler may
